@@ -544,7 +544,15 @@ pub fn run(check: &mut Check, prop: &str, cases: Vec<CaseInfo>, policies: &[&str
     let deadline = std::time::SystemTime::now().duration_since(std::time::UNIX_EPOCH).map(|d| d.as_secs()).unwrap_or(0) + budget_s;
     let mut jobs = vec![];
     let mut meta: Vec<(usize, String)> = vec![];
-    for (ci, _c) in cases.iter().enumerate() {
+    // debugging aid: VCHECK_ONLY_CASES=<substring of the case label>
+    let only = std::env::var("VCHECK_ONLY_CASES").ok();
+    if let Some(f) = &only {
+        check.cov("debug_case_filter", json!(f));
+    }
+    for (ci, c) in cases.iter().enumerate() {
+        if only.as_ref().map(|f| !c.label.contains(f.as_str())).unwrap_or(false) {
+            continue;
+        }
         for p in policies {
             jobs.push(json!({"case": ci, "policy": p, "max": max_per_case, "prefix": [], "expand": true, "deadline": deadline}).to_string());
             meta.push((ci, p.to_string()));
